@@ -12,6 +12,7 @@ for name in $names; do
     case $f in
       *sequence_otel.py) props="$props C08 C12";;
       *utils.py) props="$props C16 C06";;
+      *logic_detection.py) props="$props C06";;
       *pv_to_tel.py) props="$props C16";;
       *events.py) props="$props C04";;
       *data_holders/base.py) props="$props C11 C10";;
